@@ -122,11 +122,12 @@ def rstHeader : P RstHeader := fun s =>
   | .ok (doubles, s) =>
   if doubles ≠ 0 then .error .failure else .ok (⟨dim, variables, steps, dof⟩, s)
 
-/-- the test of the proposed repair, on rank 0 right after the header -/
+/-- the test of the proposed repair, on rank 0 right after the header: no negative count, at least one step, and — when
+    there are variables — `variables × steps × dof` doubles present (`avail` bytes are left) -/
 def rstCountsFit (h : RstHeader) (avail : Int) : Bool :=
   let a := avail / 8
-  decide (0 ≤ h.variables ∧ 0 ≤ h.steps ∧ 0 ≤ h.dof) &&
-  (h.variables == 0 || h.steps == 0 ||
+  decide (0 ≤ h.variables ∧ 1 ≤ h.steps ∧ 0 ≤ h.dof) &&
+  (h.variables == 0 ||
     (decide (h.variables ≤ a) && decide (h.steps ≤ a / h.variables) && decide (h.dof ≤ a / h.variables / h.steps)))
 
 /-- iterations of the per-vertex loop that read nothing (`variables = 0`): only the header decides them -/
@@ -165,7 +166,8 @@ def rstSteps (dof floor : Int) (variables : Nat) (ranks : List (List Nat)) :
   | k + 1, acc, s =>
     -- first `fread` of a pass on a file that is too short: REIS fails before anything is stored
     if variables ≠ 0 ∧ 0 < dof ∧ s.length < 8 * variables * (min (chunkOfR floor dof ranks.length) dof).toNat then .error .failure else
-    if variables = 0 then rstSteps dof floor variables ranks k acc s else
+    -- without variables a pass reads and stores nothing, however many there are
+    if variables = 0 then .ok (acc, s) else
     match scatterFile false dof dof floor variables (rdMany (Solb.rdF64s variables)) ranks
             (ranks.map fun gl => List.replicate gl.length []) s with
     | .error e => .error e
